@@ -1,7 +1,9 @@
 use std::path::{Path, PathBuf};
 
 use super::{path_iterator, LuauRequireMode};
-use crate::rules::require::path_utils::{get_relative_parent_path, is_require_relative};
+use crate::rules::require::path_utils::{
+    get_parent_directory, get_relative_parent_path, is_require_relative,
+};
 use crate::{utils, DarkluaError, Resources};
 
 /// A path locator specifically for Luau require mode that implements
@@ -42,7 +44,7 @@ impl super::PathLocator for LuauPathLocator<'_, '_, '_> {
 
         if is_require_relative(&path) {
             if self.luau_require_mode.is_module_folder_name(source) {
-                path = get_relative_parent_path(get_relative_parent_path(source)).join(path);
+                path = get_parent_directory(get_relative_parent_path(source)).join(path);
             } else {
                 path = get_relative_parent_path(source).join(path);
             }
